@@ -8,6 +8,7 @@
 #include <set>
 #include <sstream>
 #include <algorithm>
+#include <unistd.h>
 #include "vdrive.hpp"
 #include "base/utility.hpp"
 #include "base/configtype.hpp"
@@ -16,6 +17,7 @@
 #include "base/array.hpp"
 #include "base/dictionary.hpp"
 #include "config/configitem.hpp"
+#include "config/applyrule.hpp"
 #include "icinga/host.hpp"
 #include "icinga/service.hpp"
 #include "icinga/dependency.hpp"
@@ -27,7 +29,8 @@ using namespace icinga;
 
 namespace {
 
-struct PendingDep { long id, c, p; std::string rg, per; long sf, iss, dc, dn; };
+struct PendingDep { long id, c, p; std::string rg, per; long sf, iss, dc, dn; bool apply; };
+struct PendingSvc { long first, second; bool apply; };   // (service id, host id), created by an apply rule?
 
 bool g_Init = false;
 std::map<long, Checkable::Ptr> g_Node;          // node id -> object
@@ -37,7 +40,7 @@ std::map<long, TimePeriod::Ptr> g_Tp;
 std::map<std::string, bool> g_TpOpen;           // by object name: what the update function yields
 // queued, not yet committed
 std::vector<long> q_Hosts;
-std::vector<std::pair<long, long>> q_Svcs;
+std::vector<PendingSvc> q_Svcs;
 std::vector<std::pair<long, long>> q_Tps;      // (id, open)
 std::vector<PendingDep> q_Deps;
 
@@ -46,8 +49,14 @@ std::string HostName(long id) { return Pfx() + "n" + std::to_string(id); }
 std::string SvcShort(long id) { return "s" + std::to_string(id); }
 std::string TpName(long id) { return Pfx() + "p" + std::to_string(id); }
 
+// Watchdog: no single operation of this fixture legitimately takes more than a fraction of a second.  If the
+// implementation ever accepts a dependency cycle, IsReachable() recurses exponentially (to depth 256) and would
+// hang for minutes; SIGALRM then ends the process and the runner records CRASH for the case and goes on.
+void Guard() { alarm(20); }
+
 void InitOnce()
 {
+	Guard();
 	if (g_Init) return;
 	g_Init = true;
 	// the TimePeriod "update" function: the whole requested region is one segment when the period is open
@@ -87,9 +96,14 @@ std::string DepConfig(const PendingDep& d, const std::map<long, long>& hostOf, s
 	std::ostringstream o;
 	std::string shortName = "d" + std::to_string(d.id);
 	fullName = cn.first + (cn.second.empty() ? "" : "!" + cn.second) + "!" + shortName;
-	o << "object Dependency \"" << shortName << "\" {\n";
-	o << "  child_host_name = \"" << cn.first << "\"\n";
-	if (!cn.second.empty()) o << "  child_service_name = \"" << cn.second << "\"\n";
+	if (d.apply) {
+		// instantiated by an apply rule: ConfigItem::CommitNewItems commits it in a LATER round than plain objects
+		o << "apply Dependency \"" << shortName << "\" to " << (cn.second.empty() ? "Host" : "Service") << " {\n";
+	} else {
+		o << "object Dependency \"" << shortName << "\" {\n";
+		o << "  child_host_name = \"" << cn.first << "\"\n";
+		if (!cn.second.empty()) o << "  child_service_name = \"" << cn.second << "\"\n";
+	}
 	o << "  parent_host_name = \"" << pn.first << "\"\n";
 	if (!pn.second.empty()) o << "  parent_service_name = \"" << pn.second << "\"\n";
 	if (d.rg != "-") o << "  redundancy_group = \"rg" << d.rg << "\"\n";
@@ -98,6 +112,13 @@ std::string DepConfig(const PendingDep& d, const std::map<long, long>& hostOf, s
 	if (d.per != "-") o << "  period = \"" << TpName(std::stol(d.per)) << "\"\n";
 	o << "  disable_checks = " << (d.dc ? "true" : "false") << "\n";
 	o << "  disable_notifications = " << (d.dn ? "true" : "false") << "\n";
+	if (d.apply) {
+		// even ids: targeted rule (name comparison), odd ids: regular rule (arbitrary filter expression)
+		if (d.id % 2 == 0) o << "  assign where host.name == \"" << cn.first << "\"";
+		else o << "  assign where match(\"" << cn.first << "\", host.name)";
+		if (!cn.second.empty()) o << " && service.name == \"" << cn.second << "\"";
+		o << "\n";
+	}
 	o << "}\n";
 	return o.str();
 }
@@ -108,6 +129,7 @@ PendingDep ParseDep(const Args& a)
 	d.id = a.num("d"); d.c = a.num("c"); d.p = a.num("p");
 	d.rg = a.str("rg", "-"); d.per = a.str("per", "-");
 	d.sf = a.num("sf"); d.iss = a.num("iss", 1); d.dc = a.num("dc", 0); d.dn = a.num("dn", 1);
+	d.apply = a.str("via", "obj") == "apply";
 	return d;
 }
 
@@ -164,7 +186,7 @@ char Dig(DependencyGroup::State s)
 } // namespace
 
 VOP(dg_host) { InitOnce(); q_Hosts.push_back(a.num("n")); }
-VOP(dg_svc) { InitOnce(); q_Svcs.emplace_back(a.num("n"), a.num("h")); }
+VOP(dg_svc) { InitOnce(); q_Svcs.push_back(PendingSvc{a.num("n"), a.num("h"), a.str("via", "obj") == "apply"}); }
 VOP(dg_tp) { InitOnce(); q_Tps.emplace_back(a.num("p"), a.num("open", 1)); }
 VOP(dg_dep) { InitOnce(); q_Deps.push_back(ParseDep(a)); }
 
@@ -180,12 +202,17 @@ VOP(dg_commit)
 		c << "object TimePeriod \"" << TpName(t.first) << "\" {\n  update = vdg_update\n}\n";
 	}
 	for (long h : q_Hosts) c << "object Host \"" << HostName(h) << "\" {\n" << CkAttrs() << "}\n";
-	for (auto& s : q_Svcs)
-		c << "object Service \"" << SvcShort(s.first) << "\" {\n  host_name = \"" << HostName(s.second) << "\"\n" << CkAttrs() << "}\n";
+	for (auto& s : q_Svcs) {
+		if (s.apply)
+			c << "apply Service \"" << SvcShort(s.first) << "\" to Host {\n" << CkAttrs() << "  assign where host.name == \"" << HostName(s.second) << "\"\n}\n";
+		else
+			c << "object Service \"" << SvcShort(s.first) << "\" {\n  host_name = \"" << HostName(s.second) << "\"\n" << CkAttrs() << "}\n";
+	}
 	std::vector<std::string> depNames;
 	for (auto& d : q_Deps) { std::string fn; c << DepConfig(d, hostOf, fn); depNames.push_back(fn); }
 	bool ok = true;
 	try { LoadConfig(c.str()); } catch (const std::exception&) { ok = false; }
+	ApplyRule::m_Rules.clear();   // harness hygiene: the rules of this load must not fire for later loads of the same process
 	if (ok) {
 		ApiListener::UpdateObjectAuthority();
 		for (auto& t : q_Tps) g_Tp[t.first] = TimePeriod::GetByName(TpName(t.first));
@@ -206,6 +233,7 @@ VOP(dg_add)
 {
 	InitOnce();
 	PendingDep d = ParseDep(a);
+	d.apply = false;
 	std::string fullName;
 	std::string cfg = DepConfig(d, g_HostOf, fullName);
 	Array::Ptr errors = new Array();
@@ -220,6 +248,7 @@ VOP(dg_add)
 // runtime deletion (DELETE /v1/objects/dependencies/...): Deactivate(runtimeRemoved) + Unregister
 VOP(dg_del)
 {
+	Guard();
 	long id = a.num("d");
 	auto it = g_Dep.find(id);
 	if (it == g_Dep.end()) { Out("del d=" + std::to_string(id) + " ok=0"); return; }
@@ -232,6 +261,7 @@ VOP(dg_del)
 // force a status through real check results: s = API state (host 0/1, service 0..3), h = hard
 VOP(dg_set)
 {
+	Guard();
 	long id = a.num("n"), s = a.num("s"), h = a.num("h", 1);
 	Checkable::Ptr c = g_Node.at(id);
 	bool isHost = g_HostOf.find(id) == g_HostOf.end();
@@ -248,6 +278,7 @@ VOP(dg_set)
 // TimePeriod update timer does)
 VOP(dg_po)
 {
+	Guard();
 	long id = a.num("p");
 	TimePeriod::Ptr tp = g_Tp.at(id);
 	g_TpOpen[tp->GetName().GetData()] = a.num("open") != 0;
@@ -259,6 +290,7 @@ VOP(dg_po)
 // reachability of every node for the three DependencyTypes
 VOP(dg_q)
 {
+	Guard();
 	for (auto& kv : g_Node) {
 		if (a.has("n") && a.num("n") != kv.first) continue;   // "dg_q n=<id>": one node only (long chains)
 		std::ostringstream o;
@@ -273,6 +305,7 @@ VOP(dg_q)
 // per-child dependency groups and the registry
 VOP(dg_g)
 {
+	Guard();
 	struct Row { long c; int kind; long kid; std::string name; std::vector<long> mem; size_t tot; std::string st; const DependencyGroup *ptr; };
 	std::vector<Row> rows;
 	for (auto& kv : g_Node) {
@@ -311,6 +344,7 @@ VOP(dg_g)
 static struct DgCaseEnd {
 	DgCaseEnd() {
 		RegisterCaseEnd([]() {
+			Guard();
 			q_Hosts.clear(); q_Svcs.clear(); q_Tps.clear(); q_Deps.clear();
 			for (auto& kv : g_Dep) RemoveObject(kv.second);
 			g_Dep.clear();
@@ -319,6 +353,7 @@ static struct DgCaseEnd {
 			g_Node.clear(); g_HostOf.clear();
 			for (auto& kv : g_Tp) RemoveObject(kv.second);
 			g_Tp.clear(); g_TpOpen.clear();
+			alarm(0);
 		});
 	}
 } l_DgCaseEnd;
